@@ -29,7 +29,7 @@ REL = {"NONE": dns.name.NameRelation.NONE, "SUPERDOMAIN": dns.name.NameRelation.
 
 
 def shards(tier, seed):
-    mult = 1 if tier == "quick" else 12
+    mult = 1 if tier == "quick" else 90
     return [{"n_pairs": 14000 * mult, "n_triples": 5000 * mult, "n_succ": 1500 * mult, "n_nd": 150 * mult, "exh": i, "exh_n": 16} for i in range(16)]
 
 
